@@ -14,6 +14,7 @@ Apply == LET e == Log[l] c == e.case r == Run(c.e, c.x, c.failAt) IN
   /\ e.res.log = r.st.log
   /\ e.res.words = r.st.pos
   /\ e.res.path = r.path
+  /\ e.res.scored = r.st.scored
   /\ e.res.v = r.v
 
 TraceInit == l = 1
